@@ -314,7 +314,7 @@ def body_periodic(rec, **c):
 def hard_case(draw):
     kind = draw(st.sampled_from(["sphere", "dipole"]))
     dim = draw(st.integers(1, 3))
-    r = draw(st.one_of(st.just(0.5), gen.log_uniform(1e-2, 10.0)))
+    r = draw(st.one_of(st.just(0.5), gen.log_uniform(1e-2, 10.0), gen.log_uniform(1e-7, 1e-2)))
     c = {"kind": kind, "dim": dim}
     if kind == "sphere":
         c["radius"] = r
@@ -344,7 +344,7 @@ def hard_case(draw):
     if n2 - inner * inner <= -1.0e-13 or (outer is not None and outer * outer - n2 <= -1.0e-13):
         s = [x * (1.0 + 4e-16) if n2 < inner * inner else x * (1.0 - 4e-16) for x in s]
     vkind = draw(st.sampled_from(["axis", "general", "towards", "grazing"]))
-    speed = draw(st.one_of(st.just(1.0), gen.log_uniform(1e-3, 1e3)))
+    speed = draw(st.one_of(st.just(1.0), gen.log_uniform(1e-3, 1e3), gen.log_uniform(1e-8, 1e-3)))
     if vkind == "axis":
         v = [0.0] * dim
         v[draw(st.integers(0, dim - 1))] = speed * draw(st.sampled_from([1.0, -1.0]))
@@ -352,7 +352,8 @@ def hard_case(draw):
         v = [x / math.sqrt(n2) * speed for x in s]
     elif vkind == "grazing" and dim >= 2:
         # impact parameter close to the inner diameter
-        b = inner * (1.0 + draw(st.sampled_from([-1e-3, -1e-9, -1e-13, 0.0, 1e-13, 1e-9, 1e-3])))
+        b = inner * (1.0 + draw(st.sampled_from([-1e-2, -1e-3, -1e-6, -1e-9, -1e-13, 0.0, 1e-13, 1e-9, 1e-6, 1e-4, 1e-3,
+                                                 1e-2, 5e-2])))
         sn = math.sqrt(n2)
         sin_a = min(1.0, b / sn)
         cos_a = math.sqrt(max(0.0, 1.0 - sin_a * sin_a))
